@@ -213,6 +213,18 @@ def r131(ctx, R):
             R.ob('R13.1', 'pair-order:%s' % keys[0], ok,
                  '(required, forbidden) returned by the normaliser is stored '
                  'as (%s, %s)' % tuple(keys), rn, func=P, node=n)
+    # every answer comes from the query builder: no normal path of the
+    # handler ends without having called get_all_by_filters (a short cut
+    # deciding the result from the parsed filters alone is a second,
+    # unreviewed implementation of the filter semantics)
+    gh = cfgmod.cfg_of(h)
+    vias = {C.stmt_of(c) for c in calls}
+    okq = bool(vias) and gh.must_pass(cfgmod.ENTRY, cfgmod.EXIT, vias,
+                                      normal_only=True)
+    R.ob('R13.1', 'every-answer-from-the-query', okq,
+         'every normal path of the handler calls get_all_by_filters',
+         'ok' if okq else 'a path returns without asking the database',
+         func=h)
     # the handler passes the dict it built
     R.ob('R13.1', 'passes-filters', fvar is not None,
          'get_all_by_filters(context, <the dict the handler created empty '
